@@ -112,7 +112,24 @@ def m_struct_unpack(ex, st, args, kwargs, node):
     return ex.havoc_call(st, "struct.unpack", args, node)
 
 
+def m_struct_pack(ex, st, args, kwargs, node):
+    """struct.pack('<Q' | '<I', v): ASSUMED little-endian unsigned; struct.error when v is out of range"""
+    fmt = args[0].const() if args and isinstance(args[0], VStr) else None
+    width = {"<Q": 64, "<I": 32}.get(fmt)
+    v = args[1] if len(args) == 2 else None
+    if width is None or not isinstance(v, VInt):
+        return ex.havoc_call(st, "struct.pack", args, node)
+    n = ops.int_term(v)
+    st = ex.fork_raise(st, z3.Or(n < 0, n >= 2 ** width), "struct.error")
+    if st is None:
+        return []
+    t = v.t if (v.is_bv and v.t.size() == width) else (z3.ZeroExt(width - v.t.size(), v.t) if v.is_bv and v.t.size() < width else
+                                                       (z3.Extract(width - 1, 0, v.t) if v.is_bv else z3.Int2BV(n, width)))
+    return [(st, VBytes([VInt(z3.Extract(8 * i + 7, 8 * i, t)) for i in range(width // 8)]))]
+
+
 def install_stream(reg):
+    reg.ext_models["struct.pack"] = m_struct_pack
     reg.ext_models[("havoc", "Stream7z")] = common.havoc_pos
     reg.method_models[("Stream7z", "read")] = m_stream_read
     reg.method_models[("Stream7z", "tell")] = common.m_tell
@@ -434,6 +451,7 @@ USZ = z3.Function("folder_unpack_sizes", Folder, IntList)
 ASLICE = z3.Function("file_bytes_at", AFile, I, I, Blob)     # f.seek(o); f.read(n)
 ALEN = z3.Function("file_len", AFile, I)
 DEC = z3.Function("decode", CoderId, CoderProps, Blob, IntList, Blob)   # uninterpreted (lzma / copy): Trust
+BCONS = z3.Function("blob_prepend_byte", BV8, Blob, Blob)       # one byte followed by a byte string
 BLEN = z3.Function("blob_len", Blob, I)
 BSLICE = z3.Function("blob_slice", Blob, I, I, Blob)          # b[lo:hi] for 0 <= lo <= hi <= len(b)
 NFILES = z3.Int("num_files_in_list")
@@ -906,6 +924,24 @@ class C10Executor(Executor):
             for k in range(64, -1, -1):
                 acc = z3.If(n == k, z3.BitVecVal(c << k, 72), acc)
             return [(st, VInt(acc))]
+        if op == "LShift" and isinstance(a, VInt) and isinstance(b, VInt) and a.is_bv and a.const() is None and a.t.size() <= 8 and b.const() is None:
+            # small value << symbolic amount (e.g. the LZMA2 dictionary size (2 | (p & 1)) << (p // 2 + 11)): exact case split
+            n = ops.int_term(b)
+            st = self.fork_raise(st, n < 0, "ValueError")
+            if st is None:
+                return []
+            self.add_vc("call-pre", f"shift-amount-at-most-64@{self.loc(node).split(':')[-1]}", st.pc, n <= 64, loc=self.loc(node))
+            st.assume(n <= 64)
+            wide = z3.ZeroExt(72 - a.t.size(), a.t)
+            acc = z3.BitVecVal(0, 72)
+            for k in range(64, -1, -1):
+                acc = z3.If(n == k, wide << k, acc)
+            return [(st, VInt(acc))]
+        if op == "Add" and isinstance(a, VBytes) and isinstance(b, VExt) and b.sort == "Blob":
+            t = b.t
+            for x in reversed(a.items):                   # bytes prefix + opaque byte string
+                t = BCONS(self.as_byte(x).t, t)
+            return [(st, VExt("Blob", t))]
         if op == "Mod" and isinstance(a, VStr) and a.const() is not None:
             # 'literal %s ... %d' % value / tuple: plain %s / %d fields with str / int arguments
             import re as _re
@@ -1031,6 +1067,20 @@ class C10Executor(Executor):
             hi, lo = ops.int_term(args[0]), ops.int_term(args[1])
             return [(st, VSeq(z3.If(hi - lo < 0, z3.IntVal(0), hi - lo), lambda i, hi=hi: VInt(hi - i), "int"))]
         return super().b_range(st, args, kwargs, node)
+
+    def bytes_method(self, st, obj, name, args, kwargs, node):
+        if name == "startswith" and len(args) == 1:
+            cands = list(args[0].items) if isinstance(args[0], VTuple) else [args[0]]
+            if all(isinstance(c_, VBytes) for c_ in cands):
+                alts = [z3.And([z3.BoolVal(len(obj.items) >= len(c_.items))] +
+                               [self.as_byte(x).t == self.as_byte(y).t for x, y in zip(obj.items, c_.items)]) for c_ in cands]
+                return [(st, VBool(z3.simplify(z3.Or(alts + [z3.BoolVal(False)]))))]
+        if name == "hex" and not args:
+            c = self.py_const(obj)
+            if isinstance(c, bytes):
+                return [(st, VStr(c.hex()))]
+            return [(st, VStr(z3.String(fresh_name("hex"))))]        # total on bytes: an opaque string
+        return super().bytes_method(st, obj, name, args, kwargs, node)
 
     def b_next(self, st, args, kwargs, node):
         """next(iterable_of_known_items[, default]) -- generator expressions are evaluated eagerly (concrete item lists)"""
@@ -1261,10 +1311,154 @@ def p_files():
     return Maker(lambda ex, st, name: [(NFILES >= 0, VSeq(NFILES, lambda i: VExt("FileInfo", FINFO(i)), "FileInfo"))], desc="list[FileInfo]")
 
 
-def layout_contracts():
+def layout_contracts(lay_reg=None):
     out = []
 
-    # ---- _apply_decoder: `decode` is uninterpreted (Appendix B); ASSUMED
+    # ---- decoder glue (verified): which liblzma decoder is built from the coder id / properties, and what it is fed.
+    # liblzma itself is uninterpreted: LZRUN(decoder description, input) is "what that decoder returns".
+    LzmaDec = ext_sort("LzmaDec")
+    LZRUN = z3.Function("lzma_decompress", LzmaDec, Blob, Blob)
+    LZ1 = z3.Function("decode_lzma1", CoderProps, Blob, IntList, Blob)
+    LZ2 = z3.Function("decode_lzma2", CoderProps, Blob, Blob)
+
+    def new_lzma_dec(ex, st, args, kwargs, node):
+        """lzma.LZMADecompressor(format=..., filters=...): ASSUMED to raise only LZMAError / ValueError-free for well-formed filter specs"""
+        d = VExt("LzmaDec")
+        st.ghost["lzma_new"] = events(st, "lzma_new") + ((d, dict(kwargs), tuple(args)),)
+        return [(st, d)]
+
+    def lzma_decompress(ex, st, obj, args, kwargs, node):
+        bad = st.fork()
+        ex.raise_in(bad, ex.mk_exc("lzma.LZMAError"))
+        st.ghost["lzma_run"] = events(st, "lzma_run") + ((obj, tuple(args)),)
+        a = args[0] if args else None
+        return [(st, VExt("Blob", LZRUN(obj.t, a.t)) if isinstance(a, VExt) and a.sort == "Blob" else VExt("Blob"))]
+
+    lay_reg.ext_models[("new", "lzma.LZMADecompressor")] = new_lzma_dec
+    lay_reg.method_models[("LzmaDec", "decompress")] = lzma_decompress
+    for cname in ("FILTER_LZMA2", "FILTER_LZMA1", "FORMAT_RAW", "FORMAT_ALONE", "FORMAT_XZ", "FORMAT_AUTO"):
+        lay_reg.ext_models[("const", f"lzma.{cname}")] = VStr(f"lzma.{cname}")
+
+    def only_decoder(c):
+        new, run = events(c.st, "lzma_new"), events(c.st, "lzma_run")
+        if len(new) != 1 or len(run) != 1 or run[0][0].t.get_id() != new[0][0].t.get_id() or new[0][2] or len(run[0][1]) != 1:
+            return None
+        return new[0][1], run[0][1][0], new[0][0]
+
+    def lzma2_dict_spec(p):
+        """LZMA2 property byte p in 0..39 (xz / 7z format): dictionary size (2 | (p & 1)) << (p / 2 + 11)"""
+        acc = z3.BitVecVal(0, 72)
+        for k in range(39, -1, -1):
+            acc = z3.If(p == bv(k), z3.BitVecVal((2 | (k & 1)) << (k // 2 + 11), 72), acc)
+        return acc
+
+    def p_props(*lengths):
+        alts = [p_const(None)] + [Maker(lambda ex, st, name, n=n: VBytes([VInt(z3.BitVec(f"{name}_{i}", 8)) for i in range(n)]), desc=f"bytes[{n}]") for n in lengths]
+        return p_alts(*alts)
+
+    def l2_post(c):
+        pr = c.args["properties"]
+        if not isinstance(pr, VBytes) or not pr.items:
+            return z3.BoolVal(False)                  # no property byte: must not return
+        p = pr.items[0].t
+        od = only_decoder(c)
+        ok = z3.BoolVal(False)
+        if od is not None and isinstance(c.result, VExt) and c.result.sort == "Blob":
+            kw, fed, dec = od
+            fl = c.ex.concrete_items(c.st, kw["filters"]) if set(kw) == {"format", "filters"} and isinstance(kw["filters"], VRef) else None
+            fmt = kw.get("format")
+            if fl is not None and len(fl) == 1 and isinstance(fl[0], VRef) and c.st.obj(fl[0].ref).kind == "dict" and isinstance(fmt, VStr):
+                d = c.st.obj(fl[0].ref).data
+                if set(d) == {"id", "dict_size"} and isinstance(d["id"], VStr) and isinstance(d["dict_size"], VInt) and isinstance(fed, VExt):
+                    ok = z3.And(fmt.t == z3.StringVal("lzma.FORMAT_RAW"), d["id"].t == z3.StringVal("lzma.FILTER_LZMA2"),
+                                ops.eq_term(d["dict_size"], VInt(lzma2_dict_spec(p))), fed.t == c.args["data"].t,
+                                c.result.t == LZRUN(dec.t, c.args["data"].t))
+        # property bytes 0..39 are the dictionary sizes a packer can choose below 4 GiB; 40 (4 GiB - 1) is not claimed here
+        return z3.Implies(z3.ULT(p, bv(40)), ok)
+
+    out.append(FnContract(
+        target=f"{RD}._decompress_lzma2",
+        params=[("self", p_unk()), ("data", p_ext("Blob")), ("properties", p_props(0, 1, 2))],
+        ensures=[("raw-LZMA2-decoder-with-the-dictionary-size-of-the-property-byte-fed-the-folder-bytes", internal(l2_post))],
+        raises=[Raises(BAD, label="missing property byte / liblzma error")],
+        note="the decoder window is a property of the folder: (2 | (p & 1)) << (p / 2 + 11) for the property byte p <= 39, never smaller"))
+
+    def l1_post(c):
+        pr, us = c.args["properties"], c.ex.concrete_items(c.entry, c.args["unpack_sizes"])
+        if not isinstance(pr, VBytes) or len(pr.items) < 5 or us is None:
+            return z3.BoolVal(False)
+        od = only_decoder(c)
+        if od is None or not (isinstance(c.result, VExt) and c.result.sort == "Blob"):
+            return z3.BoolVal(False)
+        kw, fed, dec = od
+        fmt = kw.get("format")
+        if set(kw) != {"format"} or not isinstance(fmt, VStr) or not isinstance(fed, VExt):
+            return z3.BoolVal(False)
+        size = [z3.Extract(8 * i + 7, 8 * i, us[-1].t) for i in range(8)] if us else [bv(0xFF)] * 8       # unknown size: 8 x 0xFF
+        want = c.args["data"].t
+        for b in reversed([x.t for x in pr.items[:5]] + size):
+            want = BCONS(b, want)
+        # LZMA "alone" stream: 5 property bytes, the uncompressed size as uint64 LE, the folder bytes
+        return z3.And(fmt.t == z3.StringVal("lzma.FORMAT_ALONE"), fed.t == want, c.result.t == LZRUN(dec.t, want))
+
+    def p_sizes():
+        def mk(ex, st, name):
+            return [(None, VRef(st.alloc(HeapObj("list", [], fresh=False), ex.refs))),
+                    (None, VRef(st.alloc(HeapObj("list", [VInt(z3.BitVec(f"{name}_0", 64))], fresh=False), ex.refs))),
+                    (None, VRef(st.alloc(HeapObj("list", [VInt(z3.BitVec(f"{name}_0b", 64)), VInt(z3.BitVec(f"{name}_1b", 64))], fresh=False), ex.refs)))]
+        return Maker(mk, desc="[] | [size] | [size, size]")
+
+    out.append(FnContract(
+        target=f"{RD}._decompress_lzma",
+        params=[("self", p_unk()), ("data", p_ext("Blob")), ("properties", p_props(4, 5, 6)), ("unpack_sizes", p_sizes())],
+        ensures=[("LZMA-alone-stream-is-props-size-le64-folder-bytes", internal(l1_post))],
+        raises=[Raises(BAD, label="fewer than 5 property bytes / liblzma error")],
+        note="5 property bytes + uint64 LE unpack size of the coder's output (0xFF x 8 when unknown) + the packed bytes"))
+    # abstract versions seen by _apply_decoder's verification (second registration wins at call sites)
+    out.append(FnContract(target=f"{RD}._decompress_lzma", assumed=True,
+                          params=[("self", p_unk()), ("data", p_ext("Blob")), ("properties", p_ext("CoderProps")), ("unpack_sizes", p_ext("IntList"))],
+                          returns=lambda c: VExt("Blob", LZ1(c.args["properties"].t, c.args["data"].t, c.args["unpack_sizes"].t)),
+                          raises=[Raises(BAD)], note="verified above on concrete property bytes"))
+    out.append(FnContract(target=f"{RD}._decompress_lzma2", assumed=True,
+                          params=[("self", p_unk()), ("data", p_ext("Blob")), ("properties", p_ext("CoderProps"))],
+                          returns=lambda c: VExt("Blob", LZ2(c.args["properties"].t, c.args["data"].t)),
+                          raises=[Raises(BAD)], note="verified above on concrete property bytes"))
+
+    def ad_post(kind):
+        def f(c):
+            r, data = c.result, c.args["data"].t
+            if not (isinstance(r, VExt) and r.sort == "Blob"):
+                return z3.BoolVal(False)
+            if kind == "copy":
+                return r.t == data                       # the Copy coder is the identity
+            if kind == "lzma":
+                return r.t == LZ1(c.args["properties"].t, data, c.args["unpack_sizes"].t)
+            return r.t == LZ2(c.args["properties"].t, data)
+        return f
+
+    KINDS = (("copy", b"\x00", True), ("lzma", b"\x03\x01\x01", True), ("lzma2", b"\x21", True),
+             ("aes", b"\x06\xf1\x07\x01", False), ("deflate", b"\x04\x01\x08", False))
+
+    def kind_of(c):
+        cid = c.ex.py_const(c.args["coder_id"])
+        return next((k for k, b_, _ok in KINDS if b_ == cid), None)
+
+    def ad_clause(kind, ok):
+        def f(c):
+            if kind_of(c) != kind:
+                return z3.BoolVal(True)               # another method id: this clause does not apply
+            return ad_post(kind)(c) if ok else z3.BoolVal(False)
+        return f
+
+    out.append(FnContract(
+        target=f"{RD}._apply_decoder",
+        params=[("self", p_obj("SevenZipReader", {})), ("coder_id", p_alts(*[p_const(b_) for _k, b_, _ok in KINDS])), ("properties", p_ext("CoderProps")),
+                ("data", p_ext("Blob")), ("unpack_sizes", p_ext("IntList"))],
+        ensures=[(f"coder-{k}-" + ("decodes-with-its-own-decoder" if ok else "is-rejected"), internal(ad_clause(k, ok))) for k, _b, ok in KINDS],
+        raises=[Raises(BAD, sub=True, label="unsupported / encrypted method or decoder failure", when=lambda c: z3.BoolVal(kind_of(c) != "copy"))],
+        note="method id -> decoder: 00 Copy (identity), 030101 LZMA, 21 LZMA2; AES and unknown ids are rejected (BCJ not claimed)"))
+
+    # ---- _apply_decoder as seen by _decompress_folder: `decode` is uninterpreted (Appendix B); ASSUMED
     out.append(FnContract(
         target=f"{RD}._apply_decoder", assumed=True,
         params=[("self", p_unk()), ("coder_id", p_ext("CoderId")), ("properties", p_ext("CoderProps")), ("data", p_ext("Blob")),
@@ -1632,8 +1826,19 @@ def m_seq_startswith(ex, st, obj, args, kwargs, node):
     return [(st, VBool(z3.Or(alts + [z3.BoolVal(False)])))]
 
 
+PCOUNT = z3.Function("entries_resolving_to_path", S, I)
+NORMPATH = z3.Function("os_path_normpath", S, S)
+
+
+def m_pathcounts_get(ex, st, obj, args, kwargs, node):
+    k = args[0]
+    return [(st, VInt(PCOUNT(k.t)))] if isinstance(k, VStr) else ex.havoc_call(st, "PathCounts.get", args, node)
+
+
 def install_members(reg):
     reg.method_models[("seq", "startswith")] = m_seq_startswith
+    reg.method_models[("PathCounts", "get")] = m_pathcounts_get
+    reg.ext_models["os.path.normpath"] = lambda ex, st, args, kwargs, node: [(st, VStr(NORMPATH(args[0].t)))]
     reg.method_models[("Stream7z", "seek")] = m_stream_seek
     reg.ext_models[("const", "os.SEEK_END")] = VInt(2)
     common.install_clock(reg)
@@ -1776,12 +1981,31 @@ def sel_axiom(SEL, RANK, keep, n):
     return z3.ForAll([a], z3.Implies(z3.And(a >= 0, a < n, keep(a)), SEL(RANK(a)) == a), patterns=[RANK(a)])
 
 
-def member_contracts():
+def member_contracts(reg_models=None):
     out = []
+    reg_models = reg_models if reg_models is not None else {}
     arch = loader.module(ARCH)
     max_entry = eval(compile(ast.Expression(arch.assigns["MAX_ARCHIVE_FILE_SIZE"]), "x", "eval"), {})
 
     # ---- assumed helpers (proved elsewhere)
+    # ---- the skip rule itself ("supported visible members"): hidden, macOS resource forks, unsupported types, NESTED ARCHIVES = the
+    # base name ENDS (case-insensitively) in an archive extension.  Verified here; the member loops use it through the uninterpreted
+    # SKIP (second registration below, the one call sites see).
+    NESTED = (".zip", ".tar", ".tar.gz", ".tgz", ".tar.bz2", ".tbz2", ".tar.xz", ".txz", ".7z")
+    SUPB = z3.Function("is_supported_file_cached", S, B)
+    LOWERF = z3.Function("str_lower", S, S)
+    reg_models["str.lower"] = lambda ex, st, args, kwargs, node: [(st, VStr(LOWERF(args[0].t)))]
+
+    def skip_spec(c):
+        f, b = c.args["filename"].t, c.args["basename"].t
+        return VBool(z3.Or([z3.PrefixOf(z3.StringVal("."), b), z3.PrefixOf(z3.StringVal("__MACOSX/"), f), z3.Not(SUPB(b))] +
+                           [z3.SuffixOf(z3.StringVal(e), LOWERF(b)) for e in NESTED]))
+
+    out.append(FnContract(target=f"{ARCH}::_is_supported_file_cached", assumed=True, params=[("filename", p_str())],
+                          returns=lambda c: VBool(SUPB(c.args["filename"].t)), note="lru_cache wrapper of router.is_supported_file (C07)"))
+    out.append(FnContract(target=f"{ARCH}::_should_skip_file", params=[("filename", p_str()), ("basename", p_str())],
+                          returns=skip_spec, raises=[],
+                          note="skip <=> hidden | __MACOSX/ | unsupported | base name ends (lower-cased) in a nested-archive extension"))
     out.append(FnContract(target=f"{ARCH}::_should_skip_file", assumed=True, params=[("filename", p_str()), ("basename", p_str())],
                           returns=lambda c: VBool(SKIP(c.args["filename"].t, c.args["basename"].t)),
                           note="hidden / unsupported / nested-archive members (definition proved by the C09 pack)"))
@@ -1994,6 +2218,23 @@ def member_contracts():
 
     # ---- 7z: selection + extraction into a private temp dir + sequential processing
 
+    def distinct_paths():
+        """writers' invariant (assumption 'members are distinct names'): no two non-directory entries resolve to one path"""
+        t = z3.Int("t!dp")
+        return z3.ForAll([t], z3.Implies(z3.And(t >= 0, t < N7, z3.Not(ISDIR(FINFO(t)))), PCOUNT(NORMPATH(FNAME(FINFO(t)))) == 1),
+                         patterns=[FINFO(t)])
+
+    def count7_inv(lc):
+        """a pass that counts the entries per normalised path into a dict: by the meaning of counting (PY semantics of
+        d[k] = d.get(k, 0) + 1 over the whole list) the dict is the occurrence count PCOUNT; introduced at the loop exit"""
+        if lc.extra.get("phase") == "exit":
+            loop = cur_loop(lc)
+            names = {n.value.id for n in ast.walk(loop) if isinstance(n, ast.Subscript) and isinstance(n.ctx, ast.Store) and isinstance(n.value, ast.Name)}
+            if len(names) != 1:
+                raise ops.Unsupported(f"7z path-count pass: expected one dict being filled, found {sorted(names)}")
+            lc.st.bind(names.pop(), VExt("PathCounts"))
+        return z3.BoolVal(True)
+
     def sel7_inv(lc):
         i = lc.i
         conj = []
@@ -2041,7 +2282,10 @@ def member_contracts():
         raises=[Raises("ExtractionError", sub=True, label="too large / encrypted / extraction failed / invalid archive"),
                 Raises("Exception", sub=True, label="container / temp dir could not be opened",
                        when=lambda c: z3.BoolVal(c.exc is not None and "site" in c.exc.attrs))],
-        loops=role(is_seq("FileInfo"), "selects-the-visible-supported-members-in-list-order", sel7_inv),
+        hyps=lambda c: distinct_paths(),          # input assumption (distinct member paths), not a caller obligation
+        loops=merged(role(both(is_seq("FileInfo"), body_calls("append")), "selects-the-visible-supported-members-in-list-order", sel7_inv),
+                     role(both(is_seq("FileInfo"), lambda ex, st, it, node: not body_calls("append")(ex, st, it, node)),
+                          "counts-the-entries-per-normalised-path", count7_inv)),
         frame=lambda ex, st, ctx: st.ghost.__setitem__("routes", events(st, "routes") + (("7z", ctx.args["file_like"], ctx.args["archive_path"], None),)),
         result_maker=lambda ex, st, ctx: VExt("MemberGen"),
         note="members: non-directory, not skipped, <= max_memory_size; order = szf.list()"))
@@ -2986,10 +3230,10 @@ def contracts(reg):
     install_members(reg)
     out = []
     out.extend(byte_contracts())
-    out.extend(layout_contracts())
+    out.extend(layout_contracts(reg))
     out.extend(parser_contracts())
     out.extend(build_contracts(reg))
-    out.extend(member_contracts())
+    out.extend(member_contracts(reg.ext_models))
     out.extend(detect_contracts())
     return [guard_contract(c) for c in out]
 
@@ -3061,7 +3305,7 @@ def lemmas():
     return out
 
 
-def native_scope(repo, tier):
+def _native_obligation(repo, oid, bound):
     """BOUNDED stand-in (DESIGN 2.8) for the functions that are not (or only boundedly) under contract -- _parse_header,
     _parse_main_header, _parse_streams_info, _parse_files_info, SevenZipFile, lzma glue: the native differential scope of
     replay/C10.py (reference writers x layouts x member sets: read_archive == direct extraction per member; SevenZipReader
@@ -3070,7 +3314,6 @@ def native_scope(repo, tier):
     import json
     import os
     import subprocess
-    oid = "C10/replay::native-scope/bounded#read_archive-equals-direct-extraction-per-member.BOUNDED"
     req = {"property": "C10", "obligation": oid, "repo": repo}
     try:
         p = subprocess.run(["/venv/bin/python", os.path.join(os.path.dirname(os.path.dirname(os.path.abspath(__file__))), "replay", "run.py")],
@@ -3085,8 +3328,24 @@ def native_scope(repo, tier):
     o = ground_obligation(oid, ok, "" if ok else f"{res.get('target')}: {json.dumps(res.get('inputs'), default=repr)[:300]} -> {str(res.get('observed'))[:300]}",
                           "replay/C10.py", kind="bounded", backend="native-replay")
     o["bounded"] = True
-    o["bound"] = "zipfile stored/deflated, tarfile plain/gz/bz2/xz in pax/gnu/ustar format, own 7z writer copy/LZMA/LZMA2 x solid / blocks / folder per file; 14 member sets (0..11 members, directories, zero-length, hidden, unsupported, nested, corrupt, non-ASCII names)"
+    o["bound"] = bound
     return {"obligations": [o]}
+
+
+def native_scope(repo, tier):
+    """BOUNDED stand-in for everything on the property's path that is not (or only boundedly) under contract: see _native_obligation"""
+    return _native_obligation(repo, "C10/replay::native-scope/bounded#read_archive-equals-direct-extraction-per-member.BOUNDED",
+                              "zipfile stored/deflated, tarfile plain/gz/bz2/xz in pax/gnu/ustar format, own 7z writer copy/LZMA/LZMA2 x solid / blocks / folder per file; "
+                              "20 member sets (0..130 members, directories, zero-length, hidden, unsupported, nested, corrupt, dotted / non-ASCII / long names); "
+                              "one 9.7 MB solid LZMA2 folder with a 32 MiB dictionary")
+
+
+def native_files_info(repo, tier):
+    """_parse_files_info is not symbolically under contract (names are decoded through a growing bytearray): its executable contract --
+    the vectors handed to _build_file_list equal the FilesInfo grammar -- is run natively on generated sections (BOUNDED)"""
+    return _native_obligation(repo, "C10/sevenzip.py::SevenZipReader._parse_files_info/bounded#vectors-handed-to-_build_file_list-equal-the-FilesInfo-grammar.BOUNDED",
+                              "every ordered pair of 10 interesting UTF-16 code units in names; 1..20 entries with mixed EmptyStream / EmptyFile bits; "
+                              "property orders; unknown properties skipped by size")
 
 
 def known_findings(kf, violations, repo, tier):
@@ -3116,7 +3375,7 @@ def known_findings(kf, violations, repo, tier):
 
 EXECUTOR = MemberExecutor
 EXECUTOR_KW = {}
-EXTRA = [table_check, native_scope]
+EXTRA = [table_check, native_scope, native_files_info]
 TRUSTED = [
     "decode (copy = identity, LZMA / LZMA2 via liblzma) is uninterpreted: _apply_decoder is an assumed contract; its results are "
     "compared natively by replay/C10.py for copy / LZMA / LZMA2 folders",
@@ -3149,7 +3408,9 @@ ASSUMPTIONS = [
     "SubStreamsInfo lists one size per stream-bearing file; the PackInfo section is present when folders exist",
     "the end-to-end statement (read_archive == direct extraction per member, in order) is the COMPOSITION of the layer contracts "
     "(a)-(f); the composition itself is argued in the pack's docstring, not discharged by the solver",
-    "a ZIP/TAR/7z member above max_memory_size / MAX_ARCHIVE_FILE_SIZE is skipped (C12's limits); members are distinct names",
+    "a ZIP/TAR/7z member above max_memory_size / MAX_ARCHIVE_FILE_SIZE is skipped (C12's limits); members are distinct names: no two "
+    "non-directory 7z entries resolve to one normalised path (the per-path counting pass of _extract_from_7z_optimized is introduced as the "
+    "occurrence count PCOUNT, which is 1 for every member under this assumption)",
     "_parse_files_info / _parse_header / _parse_main_header / _parse_streams_info are NOT under contract: their stand-in is the BOUNDED "
     "native-scope obligation (replay/C10.py on the real code at every run)",
     "NUMPOS / DCNT (positions after i NUMBERs, defined digests among the first i) are primitive-recursive spec functions used through "
